@@ -670,6 +670,8 @@ func genTypes(body []byte) *core.Verdict {
 		uniq++
 		if rng.Intn(2) == 0 {
 			t.Units = fmt.Sprintf("U%d", uniq)
+		} else if rng.Intn(5) == 0 {
+			t.Units = "EMPTY" // the statement units ""; (it IS a statement: nearer than whatever the base states)
 		}
 		if rng.Intn(3) == 0 {
 			t.Dflt = fmt.Sprintf("D%d", uniq)
@@ -759,7 +761,9 @@ func genTypes(body []byte) *core.Verdict {
 		for _, k := range sc.tds {
 			t := tds[k]
 			fmt.Fprintf(&b, "%stypedef %s { %s", ind, t.Name, typeStmt(t.Base, t.Pat, t.Own))
-			if t.Units != "" {
+			if t.Units == "EMPTY" {
+				b.WriteString(" units \"\";")
+			} else if t.Units != "" {
 				fmt.Fprintf(&b, " units %q;", t.Units)
 			}
 			if t.Dflt != "" {
